@@ -300,9 +300,13 @@ def replay_candidate(scr, q, batch, idx):
             # (harnesses that read ghost state written by stubs would otherwise "fail" natively for an unrelated reason);
             # a failure inside the code under test (its own panic, overflow, signal) must be a non-harness failure natively too
             kdesc = (q["failed"][0].get("description", "") if q["failed"] else "")
-            native_msgs = [b for _a, b in msgs]
+            # playback-infrastructure panics (value-size mismatch, values left over: a stub drew solver values that the native run does not draw) never count
+            native_msgs = [b for a_, b in msgs if "concrete_playback.rs" not in a_ and "concrete playback" not in b]
             if kdesc.startswith("VERIF"):
-                same = any(mm.strip().startswith(kdesc[:60].strip()) for mm in native_msgs)
+                # a harness assertion failed under the solver: natively a harness assertion must fail as well. Ghost-state reads are guarded by
+                # vc::symbolic(), so a native VERIF failure comes from an exact reference; the message may differ from the solver's when the
+                # harness has a dedicated native branch (e.g. range check instead of 'low + candidate')
+                same = any(mm.strip().startswith("VERIF") and not mm.strip().startswith(("VERIF-ORACLE", "VERIF (harness)")) for mm in native_msgs)
             else:
                 same = crashed or any(not mm.strip().startswith("VERIF") for mm in native_msgs) or not native_msgs
             rep["profiles"][pname]["same_failure"] = bool(same)
